@@ -460,7 +460,7 @@ import (
 	"testing"
 )
 
-var zzEntries = map[string]func(){
+var zzReplayEntries = map[string]func(){
 %s}
 
 func zzRunOne(t *testing.T, cex string) (failed string) {
@@ -470,7 +470,7 @@ func zzRunOne(t *testing.T, cex string) (failed string) {
 		}
 	}()
 	vResetCex(cex)
-	zzEntries[vCexEntry()]()
+	zzReplayEntries[vCexEntry()]()
 	return ""
 }
 
